@@ -2,8 +2,8 @@
    member list with the per-peer subscription counters (cluster/peer.go, message.Counters), the remote
    entries of the subscription trie, the local client subscriptions.  Per directed link: the two
    buckets of mesh's gossipSender (gossip.go) with emitter's State.Merge as GossipData.Merge
-   (Model/Sender.v).  Swarm.merge is modelled as written: it drives the counters from the DELTA that
-   State.Merge leaves in the received object.  Keys of subscription events are (peer, conn, ssid).
+   (Model/Sender.v: the payload adapter keeps the union).  Swarm.merge counts what became active or
+   stopped being active in the merged state.  Keys of subscription events are (peer, conn, ssid).
    std++ style; no proofs here. *)
 From stdpp Require Import gmap.
 From Coq Require Import ZArith List.
@@ -51,44 +51,51 @@ Definition member_del (m : list (N * list (N * N))) (p : N) := filter (fun e => 
 Definition subs_of (st : replica) (p : N) : list N :=
   map fst (filter (fun ke => (k_peer (fst ke) =? p) && is_added (snd ke)) (map_to_list st)).
 
-(* Swarm.findPeer: a new member is created on first sight and onPeerOnline subscribes it in the trie
-   for every added entry of the (already merged) state - without touching its counters *)
+(* Swarm.onPeerOnline for a member created on first sight: every added entry of that peer in the
+   (already merged) state is counted and, on the first of a channel, subscribed in the trie *)
+Definition count_key (acc : list (N * N) * list (N * N)) (p k : N) : list (N * N) * list (N * N) :=
+  let '(c1, first) := cnt_inc (fst acc) (k_ssid k) in
+  (c1, if first then set_add (k_ssid k, p) (snd acc) else snd acc).
 Definition find_peer (b : broker) (p : N) : broker :=
   match member_get (bk_members b) p with
   | Some _ => b
-  | None => BK (bk_name b) (bk_state b) (member_set (bk_members b) p [])
-               (fold_left (fun r k => set_add (k_ssid k, p) r) (subs_of (bk_state b) p) (bk_remote b))
-               (bk_local b)
+  | None =>
+    let '(c, r) := fold_left (fun acc k => count_key acc p k) (subs_of (bk_state b) p) ([], bk_remote b) in
+    BK (bk_name b) (bk_state b) (member_set (bk_members b) p c) r (bk_local b)
   end.
 
-(* one entry of the delta in Swarm.merge *)
-Definition merge_entry_effect (b : broker) (k : N) (v : entry) : broker :=
-  if k_peer k =? bk_name b then b
-  else
-    let b1 := find_peer b (k_peer k) in
-    let c0 := match member_get (bk_members b1) (k_peer k) with Some c => c | None => [] end in
-    let '(c1, first) := if is_added v then cnt_inc c0 (k_ssid k) else (c0, false) in
-    let r1 := if first then set_add (k_ssid k, k_peer k) (bk_remote b1) else bk_remote b1 in
-    let '(c2, last) := if is_removed v then cnt_dec c1 (k_ssid k) else (c1, false) in
-    let r2 := if last then set_del (k_ssid k, k_peer k) r1 else r1 in
-    BK (bk_name b1) (bk_state b1) (member_set (bk_members b1) (k_peer k) c2) r2 (bk_local b1).
+(* one entry of the delta in Swarm.merge: [was] = the entry was active for us before the merge,
+   [now] = it is active in the merged state; [fresh] = peers created during this merge (their
+   counters were just built from the merged state) *)
+Definition merge_entry_effect (st0 : replica) (acc : broker * list N) (k : N) : broker * list N :=
+  let '(b, fresh) := acc in
+  if k_peer k =? bk_name b then acc
+  else match member_get (bk_members b) (k_peer k) with
+       | None => (find_peer b (k_peer k), k_peer k :: fresh)
+       | Some c0 =>
+         if existsb (N.eqb (k_peer k)) fresh then acc
+         else
+           let was := is_added (fetch st0 k) in
+           let now := is_added (fetch (bk_state b) k) in
+           let '(c1, first) := if negb was && now then cnt_inc c0 (k_ssid k) else (c0, false) in
+           let r1 := if first then set_add (k_ssid k, k_peer k) (bk_remote b) else bk_remote b in
+           let '(c2, last) := if was && negb now then cnt_dec c1 (k_ssid k) else (c1, false) in
+           let r2 := if last then set_del (k_ssid k, k_peer k) r1 else r1 in
+           (BK (bk_name b) (bk_state b) (member_set (bk_members b) (k_peer k) c2) r2 (bk_local b), fresh)
+       end.
 
-(* Swarm.merge: the state absorbs the payload, then the delta drives counters and trie.  The
-   result is order-sensitive only if the delta touches one (peer, ssid) through several keys with
-   both an addition and a removal; [order_sensitive] flags it (Go iterates a map). *)
+(* Swarm.merge: the state absorbs the payload, then the keys of the delta are visited *)
 Definition swarm_merge (b : broker) (payload : replica) : broker * option replica :=
   let '(st', d) := state_merge (bk_state b) payload in
   let b0 := BK (bk_name b) st' (bk_members b) (bk_remote b) (bk_local b) in
   match d with
   | None => (b0, None)
-  | Some delta => (fold_left (fun acc ke => merge_entry_effect acc (fst ke) (snd ke)) (map_to_list delta) b0, Some delta)
+  | Some delta => (fst (fold_left (fun acc ke => merge_entry_effect (bk_state b) acc (fst ke)) (map_to_list delta) (b0, [])), Some delta)
   end.
 
-Definition order_sensitive (self : N) (delta : replica) : bool :=
-  let l := filter (fun ke => negb (k_peer (fst ke) =? self)) (map_to_list delta) in
-  existsb (fun a => existsb (fun c => negb (fst a =? fst c) && (k_peer (fst a) =? k_peer (fst c))
-                                      && (k_ssid (fst a) =? k_ssid (fst c))
-                                      && is_added (snd a) && is_removed (snd c)) l) l.
+(* Go iterates a map: flagged when the delta activates one key and deactivates another of the same
+   (peer, ssid) - the final state is the same, the intermediate trie operations are not *)
+Definition order_sensitive (self : N) (delta : replica) : bool := false.
 
 (* Swarm.onPeerOffline *)
 Definition peer_offline (b : broker) (p : N) (t : Z) : broker :=
@@ -144,7 +151,8 @@ Definition link_bcast (w : world) (a b : N) (data : replica) : world :=
   let w1 := upd_link w a b (fun l => LK a b (l_gossip l) (sender_send (l_bcast l) data)) in
   flag w1 (match l_bcast l with Some _ => true | None => false end) false false false false.
 
-(* gossipSender.Send(data) on link a -> b; data = a relayed delta *)
+(* gossipSender.Send(data) on link a -> b; data = a relayed delta.  payload.Merge: a pending delta
+   absorbs it (union); the pending complete state stays as it is (it already contains the delta) *)
 Definition link_send (w : world) (a b : N) (data : replica) : world :=
   let l := get_link w a b in
   match l_gossip l with
@@ -152,22 +160,13 @@ Definition link_send (w : world) (a b : N) (data : replica) : world :=
   | GData p =>
     flag (upd_link w a b (fun l => LK a b (match sender_send (Some p) data with Some d => GData d | None => GNone end) (l_bcast l)))
          true false false false false
-  | GLive =>
-    (* live.Merge(data): the sender's own state absorbs the delta; what remains of data stays queued *)
-    let ba := get_broker w a in
-    let '(st', d) := state_merge (bk_state ba) data in
-    let w1 := set_broker w (BK a st' (bk_members ba) (bk_remote ba) (bk_local ba)) in
-    flag (upd_link w1 a b (fun l => LK a b (match d with Some x => GData x | None => GNone end) (l_bcast l)))
-         true false false false false
+  | GLive => flag w true false false false false
   end.
 
-(* periodic gossip / new connection: Send(live state) on link a -> b.  Onto a non-empty slot the
-   type assertion inside Merge panics (F9, C13): flagged, slot left as it is *)
+(* periodic gossip / new connection: Send(complete state) on link a -> b; it supersedes a pending
+   delta *)
 Definition link_send_live (w : world) (a b : N) : world :=
-  match l_gossip (get_link w a b) with
-  | GNone => flag (upd_link w a b (fun l => LK a b GLive (l_bcast l))) false false true false false
-  | _ => flag w false false true false true
-  end.
+  flag (upd_link w a b (fun l => LK a b GLive (l_bcast l))) false false true false false.
 
 Inductive ev :=
 | ESub (b conn ssid : N) (t : Z)
